@@ -93,7 +93,12 @@ def frames_phase(ctx, n):
             ctx.case(("frame", s, cmp, p[:4]), nontrivial=s > 0, sample={"payload_len": s, "compress": cmp, "header": wire[:5].hex()})
             ctx.count("frame:" + ("compressed" if wire[4] else "plain"))
             want_flag = R.canonical_frame_flag(p, cmp)
-            u = R.unframe(wire)
+            try:
+                u = R.unframe(wire)
+            except Exception as e:          # e.g. flag says compressed but the body is not a zlib stream
+                ctx.violation("frame-not-readable-by-reference:" + type(e).__name__, {"size": s, "compress": cmp, "payload": p.hex() if s < 200 else None},
+                              observed=wire[:8].hex() + " " + str(e)[:80], expected="a frame the published format defines", what="the reference decoder cannot read the emitted frame")
+                continue
             if u is None or u[2] != b"" or u[3] != b"\n" or u[0] != p or bool(u[1]) != want_flag or wire[4] not in (0, 1):
                 ctx.violation("frame-differs-from-published", {"size": s, "compress": cmp, "payload": p.hex() if s < 200 else None}, observed=wire[:8].hex(),
                               expected="!LB header, flag=%d, payload, newline" % want_flag, what="emitted frame is not the published frame for this payload")
